@@ -37,9 +37,11 @@ T_C02 == ~R.overlap
 T_C04 == /\ P!Lifecycle(Log)
          /\ \A a \in SetOf(R.spret) : (\E i \in 1..Len(Log) : Log[i].a = a /\ Log[i].kind = "Started") \/ ~Reg[a]
 T_C05 == /\ P!AtMostOnce(Log) /\ P!InOrder(Log) /\ P!RestartsNumbered(Events) /\ R.witness
+         /\ P!StoppedLast(Log) /\ P!IncMonotone(Log) /\ P!IncOrder(Log)      \* what follows a failure goes to a fresh, initialised receiver
          /\ R.quiet => \A a \in Actors : (Reg[a] /\ P!NotStopping(Issued, Events, a)) => \A k \in Accepted[a] : P!Handled(Log, a, k)
 T_C06 == /\ P!RestartsBounded(Events) /\ R.witness
-         /\ R.quiet => \A a \in Actors : P!Exhausted(Events, a) => (~Reg[a] /\ \A d \in P!Desc(a) : ~Reg[d])
+         /\ R.quiet => P!CleanAfterExhaustion(Events, Issued, Reg, TRUE)
+T_C06_Clean_strict == R.quiet => P!CleanAfterExhaustion(Events, Issued, Reg, FALSE)
 T_C07 == /\ P!KindsKnown(Log)
          /\ P!DoneAfterStop(Log, Done, TRUE)
          /\ P!Drained(Log, Events, Done, Issued, SentBefore)
@@ -47,6 +49,7 @@ T_C07 == /\ P!KindsKnown(Log)
 T_C07_DoneAfterStop_strict == P!DoneAfterStop(Log, Done, FALSE)
 T_C07_AllDone_strict == R.quiet => P!AllDone(Done, Issued, Events, FALSE)
 T_C08 == /\ P!KidsFirst(Log, Issued, Events, TRUE)
+         /\ R.quiet => P!TerminalStopped(Log, Issued, Events, Reg, TRUE)
          /\ P!ChildrenExact(Log, Issued, Events)
          /\ P!NotDoneEarly(Log, Done, Issued, Events, TRUE)
          /\ \A i \in 1..Len(Log) : Log[i].par = (IF Parent[Log[i].a] = "none" THEN "" ELSE Parent[Log[i].a])
